@@ -12,7 +12,7 @@ import random
 
 import z3
 
-from vf import backends, common, pg, refprog, symx
+from vf import backends, common, pg, refprog, stmtdsl, symx
 from vf.common import Run, pmap, chunks
 from vf.symx import Explorer
 
@@ -84,7 +84,10 @@ def compare(ex, prover, execs, names, init_of=None):
     'refuted' | 'unknown'.  Returns None or a mismatch description."""
     nev = 0
     if init_of is None:
-        init_of = lambda k: symx.SymNum(z3.Int("init_" + k))  # noqa
+        _roles = pg.var_roles(execs[2].m.prog)
+        # the initial value of a persistent name, in the same shape the executors received it (an array state is an array of
+        # its initial elements: comparing it with ONE scalar symbol made an untouched array look changed -- false alarm corrected)
+        init_of = lambda k: stmtdsl.make_value(k, _roles.get(k, "num"), "init_")  # noqa
     while nev < MAX_EVENTS:
         outs = [e.step() for e in execs]
         nev += 1
@@ -276,6 +279,9 @@ def replay_once(prog, mode, K, init, ufs):
 
     def init_of(k):
         v = init["context"].get(k[len("<state>"):], 0)
+        if isinstance(v, list):
+            import numpy as np
+            v = np.array(v, dtype=object)
         return v
     return compare(None, prover, execs, names, init_of)
 
